@@ -544,6 +544,8 @@ def check_sources(ctx, sources, compile_too, det=False):
 
 
 def replay(obj):
+    if obj.get("kind") in ("no-failing-input-found", "correspondence") or obj.get("correspondence"):
+        return vlib.replay_correspondence(obj)
     r = obj.get("replay", obj)
     print(json.dumps(r, indent=1, default=str)[:3000])
     if "prql" in r:
